@@ -131,20 +131,109 @@ def fval(x):
     return x * x + 3 * x + 7
 
 
+# ---- unusual but legal results (mode 2: the evaluation RETURNS UNUSUAL[x % len]) and exceptions of user code
+# (mode 3: it RAISES a fresh copy of EXC_KINDS[x % len]).  A result is reported as the code -(1+u), an exception as
+# -(100+k), and only when type and value came back exactly (repr distinguishes -0.0, numpy scalars, 0-d arrays).
+import numpy as _np
+
+UNUSUAL = [0, 0.0, -0.0, False, None, "", [], (), {}, _np.float64(0.0), _np.array(0.0), _np.array([1.5]), _np.int64(0),
+           float("nan"), True, -7, [None], _np.bool_(False), _np.float64(-0.0), 0j]
+
+
+class NumberedError(Exception):
+    """an exception of user code that happens to carry the attribute names of a job result"""
+
+    def __init__(self, x):
+        super().__init__(x)
+        self.number = x
+        self.result = None
+        self.result_list_row = [x]
+
+
+class FalsyError(Exception):
+    """an exception object that is false in a boolean context"""
+
+    def __bool__(self):
+        return False
+
+    def __len__(self):
+        return 0
+
+
+def make_exc(k):
+    return [lambda: ValueError(), lambda: KeyError(0), lambda: NumberedError(0), lambda: ZeroDivisionError("division by zero"),
+            lambda: OSError(0, ""), lambda: FalsyError(), lambda: NumberedError(1), lambda: AssertionError()][k]()
+
+
+N_EXC = 8
+
+
+def _same(a, b):
+    return type(a) is type(b) and repr(a) == repr(b)
+
+
+def enc(v):
+    """a yielded value as JSON: ints as they are, recognised unusual values as their code"""
+    if type(v) is int and v >= 7:
+        return v
+    for u, proto in enumerate(UNUSUAL):
+        if _same(v, proto):
+            return -(1 + u)
+    return "unrecognised:%s:%s" % (type(v).__name__, repr(v)[:60])
+
+
+def enc_exc(e):
+    """a raised exception: WorkError(x) -> x, a recognised unusual kind -> its code, anything else -> None"""
+    if type(e) is WorkError:
+        return e.args[0] if e.args else None
+    for k in range(N_EXC):
+        proto = make_exc(k)
+        if type(e) is type(proto) and e.args == proto.args and getattr(e, "number", None) == getattr(proto, "number", None):
+            return -(100 + k)
+    return None
+
+
+def outcome_of(x, mode):
+    """what evaluating (x, mode) does, after the gate"""
+    if mode == 1:
+        raise WorkError(x)
+    if mode == 2:
+        return UNUSUAL[x % len(UNUSUAL)]
+    if mode == 3:
+        if x % N_EXC == 3:
+            return 1 / 0
+        raise make_exc(x % N_EXC)
+    return fval(x)
+
+
 def work(args):
     """the function mapped over the batch: args = [jid, x, mode, delay_ms]"""
     jid, x, mode, delay = args
     _enter(jid, delay)
-    if mode == 1:
-        raise WorkError(x)
-    return fval(x)
+    return outcome_of(x, mode)
+
+
+SCALARS = [0, 0.0, -0.0, False, None, _np.float64(2.5), _np.int64(3), _np.float64(0.0), True, -4, 1.5, _np.bool_(False)]
+
+
+def scalar_arg(x):
+    """batch entry x of a scalar batch as the plain value handed to map: 1..59 as they are, 100+s -> SCALARS[s]"""
+    return SCALARS[x - 100] if x >= 100 else x
 
 
 def work_scalar(args):
-    """mapped over plain numbers: SneakyPool.map wraps a non-iterable argument as (x,)"""
-    x = args[0]
-    _enter(x)
-    return fval(x)
+    """mapped over plain non-iterable values: SneakyPool.map wraps such an argument as (x,); the evaluation must see
+    exactly that value (type included)"""
+    v = args[0]
+    if type(v) is int and v >= 1:
+        _enter(v)
+        return fval(v)
+    for s_, proto in enumerate(SCALARS):
+        if _same(v, proto):
+            _enter(100 + s_)
+            return 500000 + s_
+    _enter(99)
+    return 499999
 
 
 def work_fit(args):
@@ -154,9 +243,79 @@ def work_fit(args):
     rest = [a for a in args if not isinstance(a, fit_mod.Fitness)]
     jid, x, mode = rest
     _enter(jid)
-    if mode == 1:
-        raise WorkError(x)
+    if mode:
+        return outcome_of(x, mode)
     return fval(x) * 100 + (10 * len(pos) + pos[0] if pos else 99)
+
+
+# ---- KINDS of callables mapped through SneakyPool.map (as the function, or as one of the arguments).  A sampler maps its
+# own callables through the pool: the log likelihood (Fitness, emcee's _FunctionWrapper, dynesty's _function_wrapper named
+# "loglikelihood": replaced by the worker's own copy of the fitness) and OTHER callables (dynesty's wrapped prior transform,
+# partials, callable objects, plain functions: evaluated as they are).
+def _triple(a):
+    return int(a[0]), int(a[1]), int(a[2])
+
+
+def work_arr(a, off=1000000):
+    """a function that is NOT the likelihood (e.g. a prior transform): a = [jid, x, mode] (list, tuple or numpy array)"""
+    jid, x, mode = _triple(a)
+    if jid >= 0:
+        _enter(jid)
+    v = outcome_of(x, mode)
+    return v + off if mode == 0 else v
+
+
+def small_pt(a):
+    """a callable handed over as an ARGUMENT that is not the likelihood"""
+    return 3 * int(a[1]) + 1
+
+
+class Adder:
+    """a picklable callable object"""
+
+    def __init__(self, off):
+        self.off = off
+
+    def __call__(self, a):
+        return work_arr(a, self.off)
+
+
+def work_callarg(args):
+    """mapped over tuples that hold ONE callable at some position: the evaluation calls it"""
+    pos = [i for i, a in enumerate(args) if callable(a)]
+    rest = [a for a in args if not callable(a)]
+    jid, x, mode = _triple(rest)
+    _enter(jid)
+    if mode:
+        return outcome_of(x, mode)
+    return 10 * int(args[pos[0]]([-1, x, 0])) + pos[0]
+
+
+def make_callable(kind, fitness):
+    import functools
+    from dynesty.dynesty import _function_wrapper
+    from emcee.ensemble import _FunctionWrapper
+    if kind == "fitness":
+        return fitness
+    if kind == "emcee_wrap":
+        return _FunctionWrapper(fitness.__call__, None, None)
+    if kind == "dynesty_ll":
+        return _function_wrapper(fitness.__call__, [], {}, name="loglikelihood")
+    if kind == "dynesty_pt":
+        return _function_wrapper(work_arr, [], {}, name="prior_transform")
+    if kind == "dynesty_other":
+        return _function_wrapper(work_arr, [], {"off": 4000000}, name="input")
+    if kind == "partial":
+        return functools.partial(work_arr, off=2000000)
+    if kind == "object":
+        return Adder(3000000)
+    if kind == "plain":
+        return work_arr
+    if kind == "arg_dynesty_pt":
+        return _function_wrapper(small_pt, [], {}, name="prior_transform")
+    if kind == "arg_partial":
+        return functools.partial(work_arr, off=5)
+    raise KeyError(kind)
 
 
 def work_big(args):
@@ -409,7 +568,7 @@ def evals_of(jids):
     return [EVALS[j] for j in jids]
 
 
-def consume(gen, abandon_after=None):
+def consume(gen, abandon_after=None, raw=False):
     ys, raised = [], None
     try:
         for k, y in enumerate(gen):
@@ -422,8 +581,9 @@ def consume(gen, abandon_after=None):
     except (Stall, CaseTimeout):
         raise
     except Exception as e:  # noqa
-        raised = [type(e).__name__, str(e)[:80]]
-    return ys, raised
+        code = enc_exc(e)
+        raised = ["WorkError", code] if code is not None else [type(e).__name__, str(e)[:80]]
+    return (ys if raw else [enc(y) for y in ys]), raised
 
 
 def serial_outcomes(batch, base):
@@ -445,22 +605,28 @@ def serial_of(batch, base, fitness):
     out = []
     for i, (x, mode) in enumerate(batch["jobs"]):
         try:
-            if batch.get("scalar"):
-                out.append(["ok", work_scalar([x])])
+            if batch.get("fkind"):
+                out.append(["ok", enc(make_callable(batch["fkind"], fitness)((base + i, x, mode)))])
+            elif batch.get("akind"):
+                a = [base + i, x, mode]
+                a.insert(batch["apos"], make_callable(batch["akind"], fitness))
+                out.append(["ok", enc(work_callarg(tuple(a)))])
+            elif batch.get("scalar"):
+                out.append(["ok", enc(work_scalar([scalar_arg(x)]))])
             elif batch.get("fitpos") is not None:
                 a = [base + i, x, mode]
                 a.insert(batch["fitpos"], fitness)
                 out.append(["ok", work_fit(a)])
             else:
-                out.append(["ok", work([base + i, x, mode, 0])])
-        except WorkError as e:
-            out.append(["exc", e.args[0]])
+                out.append(["ok", enc(work([base + i, x, mode, 0]))])
+        except Exception as e:  # noqa
+            out.append(["exc", enc_exc(e)])
     return out
 
 
 def case_smap(c):
     """SneakyPool.map: several batches on one pool, steered"""
-    fitness = TableFitness([("ok", 1)])
+    fitness = WorkFitness()
     sp = SteeredPool(c["procs"], fitness=fitness, paths=None)
     out = []
     try:
@@ -468,8 +634,21 @@ def case_smap(c):
             base = 64 * b
             jobs = batch["jobs"]
             st = sp.begin(batch["sched"])
-            if batch.get("scalar"):
-                fn, args_list, jids = work_scalar, [x for x, _ in jobs], [x for x, _ in jobs]
+            if batch.get("fkind"):
+                # the KIND of callable that is mapped (the serial loop calls the same object on the same tuples)
+                fn = make_callable(batch["fkind"], fitness)
+                args_list = [(base + i, x, mode) for i, (x, mode) in enumerate(jobs)]
+                jids = [base + i for i in range(len(jobs))]
+            elif batch.get("akind"):
+                # a callable among the ARGUMENTS, at position apos
+                args_list = []
+                for i, (x, mode) in enumerate(jobs):
+                    a = [base + i, x, mode]
+                    a.insert(batch["apos"], make_callable(batch["akind"], fitness))
+                    args_list.append(tuple(a))
+                fn, jids = work_callarg, [base + i for i in range(len(jobs))]
+            elif batch.get("scalar"):
+                fn, args_list, jids = work_scalar, [scalar_arg(x) for x, _ in jobs], [x for x, _ in jobs]
             elif batch.get("fitpos") is not None:
                 args_list = []
                 for i, (x, mode) in enumerate(jobs):
@@ -517,7 +696,7 @@ def case_smap_free(c):
             jobs = batch["jobs"]
             args_list = [(base + i, x, mode, d) for i, (x, mode, d) in enumerate(jobs)]
             big = bool(batch.get("big"))
-            ys, raised = consume(pool.map(work_big if big else work, args_list, log_info=False))
+            ys, raised = consume(pool.map(work_big if big else work, args_list, log_info=False), raw=big)
             if big:
                 bad = [1 for v, blob in ys if len(blob) != 1200000 or len(set(blob[:1000])) != 1]
                 ys = [v for v, blob in ys] if not bad else ["corrupt payload"]
@@ -554,7 +733,21 @@ def case_sneakier(c):
             return ["exc", type(e).__name__, str(e)[:80]]
 
     specs = c["pools"]
-    if c["order"] == "constructed-first":
+    if c["order"] in ("two-maps", "reenter"):
+        # ONE pool object used twice: two maps inside one with-block / the with-block entered a second time
+        sp = specs[0]
+        pool = SneakierPool(processes=c["procs"], fitness=Mul(sp["mul"]))
+        if c["order"] == "two-maps":
+            try:
+                with pool as p:
+                    for xs in (sp["xs"], sp["xs2"]):
+                        out.append(["ok", [int(v) for v in p.map(p.fitness, xs)]])
+            except Exception as e:  # noqa
+                out.append(["exc", type(e).__name__, str(e)[:80]])
+        else:
+            out.append(use(pool, sp["xs"]))
+            out.append(use(pool, sp["xs2"]))
+    elif c["order"] == "constructed-first":
         pools = [SneakierPool(processes=c["procs"], fitness=Mul(sp["mul"])) for sp in specs]
         for pool, sp in zip(pools, specs):
             out.append(use(pool, sp["xs"]))
@@ -587,6 +780,20 @@ class TableFitness(fit_mod.Fitness):
         raise WorkError(v)
 
 
+class WorkFitness(fit_mod.Fitness):
+    """the fitness object of the smap pools: parameters = [jid, x, mode]; gated and counted like every evaluation
+    (jid < 0: called from inside another evaluation, no gate)"""
+
+    def __init__(self):
+        super().__init__(model=None, analysis=None)
+
+    def __call__(self, parameters, *kwargs):
+        jid, x, mode = _triple(parameters)
+        if jid >= 0:
+            _enter(jid)
+        return outcome_of(x, mode)
+
+
 class ScriptedInitializer(init_mod.AbstractInitializer):
     def __init__(self, n_stream):
         self.k = 0
@@ -600,8 +807,8 @@ class ScriptedInitializer(init_mod.AbstractInitializer):
         return [u]
 
 
-def case_init(c):
-    """AbstractInitializer.samples_from_model with n_cores processes, steered"""
+def _init_call(ini, c):
+    """one samples_from_model call of the initializer object `ini` (its scripted stream restarted for this call)"""
     table = [tuple(t) for t in c["stream"]]
     fitness = TableFitness(table)
     model = af.Collection(p=af.UniformPrior(lower_limit=0.0, upper_limit=1024.0))
@@ -621,7 +828,8 @@ def case_init(c):
             sp.pool.map = map_
             return sp.pool
 
-    ini = ScriptedInitializer(len(table))
+    ini.k = 0
+    ini.n_stream = len(table)
     saved = init_mod.SneakyPool
     init_mod.SneakyPool = PatchedPool
     res = {}
@@ -639,12 +847,33 @@ def case_init(c):
             res = {"raised": [type(e).__name__, str(e)[:80]]}
         res["drawn"] = ini.k
         res["evals"] = evals_of(range(len(table)))
+        res["pools"] = len(created)
         if created:
             res["pend"], res["resq"] = created[0].residue()
     finally:
         init_mod.SneakyPool = saved
         for sp in created:
             sp.close()
+    return res
+
+
+def case_init(c):
+    """AbstractInitializer.samples_from_model with n_cores processes, steered; with "again": ONE initializer object used for
+    a second call with another fitness, another number of cores and another number of points (each call is compared with
+    what a fresh initializer gives: its own stream)"""
+    ini = ScriptedInitializer(len(c["stream"]))
+    res = _init_call(ini, c)
+    if c.get("again"):
+        # the first call's pool has been dropped (its workers got their StopCommand); nothing is killed here: whatever
+        # the initializer object still holds on to stays alive, as it would in a user's process
+        gc.collect()
+        time.sleep(0.05)
+        for g in GATES:
+            while g.acquire(False):
+                pass
+        for i in range(NEVAL):
+            EVALS[i] = 0
+        res["again"] = _init_call(ini, c["again"])
     return res
 
 
@@ -720,9 +949,8 @@ class NumJob(process_mod.AbstractJob):
             if not GATED.value and self.delay:
                 time.sleep(self.delay / 1000.0)
             EVALS.bump(self.number)
-        if self.mode == 1:
-            raise WorkError(self.x)
-        return GridJobResult(SimpleNamespace(samples_summary=fval(self.x)), [self.number, fval(self.x)], self.number)
+        v = outcome_of(self.x, self.mode)
+        return GridJobResult(SimpleNamespace(samples_summary=v), [self.number, v], self.number)
 
 
 class WorkerJobQueue:
@@ -783,8 +1011,8 @@ class GatedProcess(process_mod.Process):
 
 def describe(item):
     if isinstance(item, Exception):
-        return ["exc", item.args[0] if item.args else None]
-    return ["ok", item.number, item.result.samples_summary]
+        return ["exc", enc_exc(item)]
+    return ["ok", item.number, enc(item.result.samples_summary)]
 
 
 def keyed_views(items, total):
@@ -792,28 +1020,38 @@ def keyed_views(items, total):
     rb = ResultBuilder(lists=[[0.0]] * total, grid_priors=[], paths=[None] * total)
     for it in good:
         rb.add(it)
-    summaries = [None if isinstance(s, Placeholder) else s for s in rb.sample_summaries]
+    summaries = [None if isinstance(s, Placeholder) else enc(s) for s in rb.sample_summaries]
     results = []
     for it in good:             # Sensitivity.run: results.append(result); results = sorted(results)
         results.append(it)
         results = sorted(results)
-    return summaries, [[r.number, r.result.samples_summary] for r in results]
+    return summaries, [[r.number, enc(r.result.samples_summary)] for r in results]
 
 
-def serial_jobs(jobs):
+def serial_jobs(jobs, nums=None):
     out = []
-    for number, (x, mode) in enumerate(jobs):
+    for i, (x, mode) in enumerate(jobs):
         try:
-            r = NumJob(number, x, mode).perform()
-            out.append(["ok", r.number, r.result.samples_summary])
-        except WorkError as e:
-            out.append(["exc", e.args[0]])
+            r = NumJob(nums[i] if nums else i, x, mode).perform()
+            out.append(["ok", r.number, enc(r.result.samples_summary)])
+        except Exception as e:  # noqa
+            out.append(["exc", enc_exc(e)])
     return out
+
+
+def counter_value():
+    """the next value of the class-level job counter AbstractJob._number, without drawing from it"""
+    import re as _re
+    m = _re.match(r"count\((\d+)\)", repr(process_mod.AbstractJob._number))
+    return int(m.group(1)) if m else -1
 
 
 def case_jobs(c):
     """Process.run_jobs steered: which worker takes which job and when the main loop polls"""
-    jobs = [NumJob(i, x, mode) for i, (x, mode) in enumerate(c["jobs"])]
+    nums = c.get("nums")
+    c0 = counter_value()
+    jobs = [NumJob(nums[i] if nums else i, x, mode) for i, (x, mode) in enumerate(c["jobs"])]
+    numbering = {"before": c0, "numbers": [j.number for j in jobs], "after": counter_value()}
     nw = c["cores"] - 1
     st = Steer(c["sched"], nw, shared_jobs=len(jobs))
     STEER[0] = st
@@ -824,15 +1062,46 @@ def case_jobs(c):
             items.append(it)
     except AssertionError as e:
         inner = e.args[0] if e.args else None
-        raised = ["AssertionError", inner.args[0] if isinstance(inner, Exception) and inner.args else None]
+        raised = ["AssertionError", enc_exc(inner) if isinstance(inner, Exception) else None]
     except (Stall, CaseTimeout):
         raise
     except Exception as e:  # noqa
         raised = [type(e).__name__, str(e)[:80]]
     summaries, srt = keyed_views(items, len(jobs))
-    return {"serial": serial_jobs(c["jobs"]), "items": [describe(i) for i in items], "raised": raised,
-            "summaries": summaries, "sorted": srt, "evals": evals_of(range(len(jobs))),
+    return {"serial": serial_jobs(c["jobs"], nums), "items": [describe(i) for i in items], "raised": raised,
+            "summaries": summaries, "sorted": srt, "evals": evals_of(range(len(jobs))), "numbering": numbering,
             "left": [len(b) for b in st.bufs], "ticks": st.ticks, "forced": st.forced}
+
+
+def case_jobs_seq(c):
+    """a HISTORY of run_jobs calls in one process (one after the other, each with its own jobs, numbering, worker count
+    and schedule); what carries over between two calls is reported too: the class-level job counter and live children"""
+    out = []
+    for call in c["calls"]:
+        # jobs whose number comes from the class-level counter (SneakyJob, or any AbstractJob built without a number),
+        # created between two calls: explicit numbers of the next call must not depend on how far the counter is
+        drawn = [NumJob(None, 0, 0).number for _ in range(call.get("draw", 0))]
+        r = case_jobs(dict(call, kind="jobs"))
+        r["drawn"] = drawn
+        time.sleep(0.02)
+        r["children_left"] = len([p for p in mp.active_children() if p.is_alive()])
+        out.append(r)
+        cleanup_children()
+    return {"calls": out}
+
+
+def case_numbering(c):
+    """AbstractJob numbering: a sequence of job constructions, with an explicit number or without (class-level counter)"""
+    c0 = counter_value()
+    numbers = []
+    for spec in c["specs"]:
+        if spec is None:
+            numbers.append(NumJob(None, 0, 0).number)
+        elif spec == "sneaky":
+            numbers.append(sneaky_mod.SneakyJob(work, 1, 2).number)
+        else:
+            numbers.append(NumJob(spec, 0, 0).number)
+    return {"before": c0, "numbers": numbers, "after": counter_value()}
 
 
 def case_jobs_free(c):
@@ -845,7 +1114,7 @@ def case_jobs_free(c):
             items.append(it)
     except AssertionError as e:
         inner = e.args[0] if e.args else None
-        raised = ["AssertionError", inner.args[0] if isinstance(inner, Exception) and inner.args else None]
+        raised = ["AssertionError", enc_exc(inner) if isinstance(inner, Exception) else None]
     except (Stall, CaseTimeout, RaceHang):
         raise
     except Exception as e:  # noqa
@@ -1155,7 +1424,7 @@ def case_jobs_race(c):
     return {"hangs": hangs, "wrong": wrong, "stuck": stuck, "calls": c["repeat"]}
 
 
-KINDS = {"pickle_walk": case_pickle_walk, "emcee_run": case_emcee_run, "smap_twofit": case_smap_twofit, "sneakier": case_sneakier, "grid_fit": case_grid_fit, "sens_fit": case_sens_fit, "jobs_race": case_jobs_race, "smap": case_smap, "smap_free": case_smap_free, "init": case_init, "emcee": case_emcee,
+KINDS = {"jobs_seq": case_jobs_seq, "numbering": case_numbering, "pickle_walk": case_pickle_walk, "emcee_run": case_emcee_run, "smap_twofit": case_smap_twofit, "sneakier": case_sneakier, "grid_fit": case_grid_fit, "sens_fit": case_sens_fit, "jobs_race": case_jobs_race, "smap": case_smap, "smap_free": case_smap_free, "init": case_init, "emcee": case_emcee,
          "jobs": case_jobs, "jobs_free": case_jobs_free}
 
 
@@ -1163,6 +1432,10 @@ def case_limit(c):
     """seconds one case may take (a steered case normally takes well under a second)"""
     if c["kind"] == "jobs_race":
         return 30 + 0.3 * int(c.get("repeat", 0))
+    if c["kind"] == "jobs_seq" or c.get("again") or c.get("shape"):
+        # a history of calls / of 3-4 maps on one pool (under a machine load of 250 such a case was seen to need more than
+        # 45 s, unloaded it takes 0.6 s); every wait inside is bounded by WAIT, a stalled call ends the history
+        return 90
     return 45
 
 
